@@ -21,6 +21,7 @@ pub struct Seed {
     pub s: Element,
     pub c: Element,
     pub r: Element,
+    pub l2: Element,
 }
 
 const V50: AutosarVersion = AutosarVersion::Autosar_00050;
@@ -36,7 +37,11 @@ pub fn mk_seed() -> Seed {
     let r = s.create_sub_element(ElementName::FibexElements).unwrap().create_sub_element(ElementName::FibexElementRefConditional).unwrap().create_sub_element(ElementName::FibexElementRef).unwrap();
     r.set_reference_target(&c).unwrap();
     let p10 = pkgs.create_named_sub_element(ElementName::ArPackage, "p10").unwrap();
-    Seed { model, file, pkgs, p1, p10, els, s, c, r }
+    p1.set_attribute_string(AttributeName::Uuid, "u0").unwrap();
+    let l2 = p10.create_sub_element(ElementName::Desc).unwrap().create_sub_element(ElementName::L2).unwrap();
+    l2.set_attribute(AttributeName::L, EnumItem::En).unwrap();
+    l2.insert_character_content_item("text", 0).unwrap();
+    Seed { model, file, pkgs, p1, p10, els, s, c, r, l2 }
 }
 
 fn doc(pkg: &str) -> String {
@@ -108,7 +113,20 @@ pub fn catalogue() -> Vec<CatOp> {
         Err(e) => format!("Err({})", super::c01::err_class(&e)),
     });
     op!(v, "model.elements_dfs.count", true, |s: &Seed| format!("{}", s.model.elements_dfs().count()));
+    op!(v, "c.comment", true, |s: &Seed| format!("{:?}", s.c.comment()));
+    op!(v, "p1.attribute_value(UUID)", true, |s: &Seed| format!("{:?}", s.p1.attribute_value(AttributeName::Uuid).map(|v| v.to_string())));
+    op!(v, "els.content_item_count", true, |s: &Seed| format!("{}", s.els.content_item_count()));
+    op!(v, "els.sub_elements.count", true, |s: &Seed| format!("{}", s.els.sub_elements().count()));
+    op!(v, "model.files.count", true, |s: &Seed| format!("{}", s.model.files().count()));
+    op!(v, "l2.content.count", true, |s: &Seed| format!("{}", s.l2.content().count()));
     // writers
+    op!(v, "p1.remove_attribute(UUID)", false, |s: &Seed| format!("{}", s.p1.remove_attribute(AttributeName::Uuid)));
+    op!(v, "p10.get_or_create(ELEMENTS)", false, |s: &Seed| res(s.p10.get_or_create_sub_element(ElementName::Elements)));
+    op!(v, "els.get_or_create_named(CAN-CLUSTER,c2)", false, |s: &Seed| res(s.els.get_or_create_named_sub_element(ElementName::CanCluster, "c2")));
+    op!(v, "l2.insert_text(1)", false, |s: &Seed| res(s.l2.insert_character_content_item("more", 1)));
+    op!(v, "l2.remove_text(0)", false, |s: &Seed| res(s.l2.remove_character_content_item(0)));
+    op!(v, "file.set_filename(b.arxml)", false, |s: &Seed| res(s.file.set_filename("b.arxml")));
+    op!(v, "p10.create_at(ELEMENTS,1)", false, |s: &Seed| res(s.p10.create_sub_element_at(ElementName::Elements, 1)));
     op!(v, "els.create_named(CAN-CLUSTER,n)", false, |s: &Seed| res(s.els.create_named_sub_element(ElementName::CanCluster, "n")));
     op!(v, "els.create_named(CAN-CLUSTER,c2)", false, |s: &Seed| res(s.els.create_named_sub_element(ElementName::CanCluster, "c2")));
     op!(v, "pkgs.create_named(AR-PACKAGE,p2)", false, |s: &Seed| res(s.pkgs.create_named_sub_element(ElementName::ArPackage, "p2")));
